@@ -43,8 +43,7 @@ CONSTANTS
   Entry0,     \* initial entry points: set of <<module, code block>>
   ReloadWeight, \* how many times Reload is offered to the random simulator (>= 1)
   SweepOps,   \* operation names allowed as the later steps of a sweep
-  SweepMode,  \* BOOLEAN: is this configuration a sweep
-  TrackObs    \* BOOLEAN: keep the derived fields of EmitKeys in the variable obs
+  SweepMode   \* BOOLEAN: is this configuration a sweep
 
 NONE == "none"
 NoneIdx == 99               \* a slice bound that was omitted (Python None)
@@ -103,7 +102,6 @@ VARIABLES
   entry,          \* [Modules -> CodeBlocks \cup {NONE}]
   scal,           \* [ScalHolders -> [field -> token]]  plain attributes (names, enums, numbers)
   shadow,         \* [IRs -> content of the IR at its last save+load | NoShadow]   (deep_eq twin, C18)
-  obs,            \* derived observations of the current state (only when TrackObs; for simulation dumps)
   op              \* the last operation: what the harness executes and compares
 
 treeVars == <<mods, kids, par, cache, nidx, ridx, nev>>
@@ -113,7 +111,7 @@ miscVars == <<scal, shadow>>
 restVars == <<symx, cfg, bytes, tags, entry, scal, shadow>>
 absView  == <<mods, kids, par, cache, nidx, ridx, built, nev, addr, isz, off, bsz,
               sname, pay, symx, cfg, bytes, tags, entry, scal, shadow>>
-vars     == <<absView, obs, op>>
+vars     == <<absView, op>>
 
 Exc(c) == [exc |-> c]
 Min2(a, b) == IF a < b THEN a ELSE b
@@ -250,7 +248,7 @@ InitS ==
                               ELSE AttachSet(S, p, c), Tail(as))
   IN Go(E, Attach0)
 
-InitCore ==
+Init ==
   /\ addr = [v \in Intervals |-> NOADDR] /\ isz = [v \in Intervals |-> 0]
   /\ off = [b \in Blocks |-> 0] /\ bsz = [b \in Blocks |-> 0]
   /\ sname = [y \in Symbols |-> DefName]
@@ -769,8 +767,9 @@ WrongKind(i, s) ==
     [] s.site \in {"edge.src", "edge.tgt"} -> R \cap (DataBlocks \cup Symbols \cup Sections \cup Modules)
     [] s.site \in {"expr.sym1", "expr.sym2"} -> R \cap (Blocks \cup Proxies \cup Sections)
 OtherFaults == {"dup-uuid-same-kind", "dup-uuid-cross-kind", "unknown-enum", "uuid-too-short", "uuid-too-long",
-                "bad-magic", "bad-version-byte", "bad-version-field", "truncated-header"}
-FaultExpect(f) == IF f \in {"bad-magic", "bad-version-byte", "bad-version-field", "truncated-header"} THEN "ValueError"
+                "bad-magic", "bad-version-byte", "bad-version-field", "zero-version-field", "truncated-header"}
+FaultExpect(f) == IF f \in {"bad-magic", "bad-version-byte", "bad-version-field", "zero-version-field",
+                              "truncated-header"} THEN "ValueError"
              ELSE "reject-or-coherent"
 LoadFault(i) ==
   /\ On("fault") /\ SelfContained(i)
@@ -797,7 +796,9 @@ SymxNames == {"symx.set", "symx.setdefault", "symx.del", "symx.pop", "symx.get",
               "symx.clear", "symx.len", "symx.update", "symx.assign"}
 CfgNames == {"cfg.add", "cfg.discard", "cfg.remove", "cfg.contains", "cfg.pop", "cfg.clear", "cfg.update", "cfg.ior",
              "cfg.iand", "cfg.isub", "cfg.ixor"}
-NextCore ==
+\* (Next stays a plain disjunction: TLC's simulator picks one disjunct at random and computes only its
+\* successors; wrapping it in a conjunction made every simulation step enumerate all successors.)
+Next ==
   \/ G({"setparent"}) /\ \E c \in Children : \E p \in ParentsOf(c) \cup {NONE} : SetParent(c, p)
   \/ G(SetNames) /\ \E r \in Rels : OnR("set", r) /\ \E p \in RelParents(r) : SetMut(r, p)
   \/ G({}) /\ \E r \in Rels : OnR("setq", r) /\ \E p \in RelParents(r) : SetQuery(r, p)
@@ -886,9 +887,6 @@ BaseKeys == {"mods", "kids", "par", "cache", "addr", "isz", "off", "bsz", "sname
 \* identity of a state for the harness: the base variables that are printed
 KeyRec == [k \in EmitKeys \cap BaseKeys |-> Field(k)]
 StateRec == [k \in EmitKeys |-> Field(k)]
-ObsRec == IF TrackObs THEN [k \in EmitKeys \ BaseKeys |-> Field(k)] ELSE <<>>
-Init == InitCore /\ obs = ObsRec
-Next == NextCore /\ obs' = ObsRec'
 Spec == Init /\ [][Next]_vars
 Emit == PrintT(ToJson([pre |-> KeyRec, op |-> op', post |-> StateRec', lvl |-> TLCGet("level")]))
 
